@@ -55,7 +55,7 @@ Proof. refute. Qed.
 (* 10: 1e-17 IN (0.0) is TRUE *)
 Lemma class10_refuted :
   where_wrong 0 10 (EIn false (ECol 1) [ELit (VFloat 0)])
-    [[VInt 1; VFloat 4352464011487829143]; [VInt 2; VFloat 0]].
+    [[VInt 1; VFloat 4352464011485697175]; [VInt 2; VFloat 0]].
 Proof. refute. Qed.
 (* 11: c1 > -9223372036854775808 is FALSE for every row *)
 Lemma class11_refuted :
@@ -87,7 +87,7 @@ Definition good1 : expr :=
       (EIsNull false (ECol 3)).
 Definition good2 : expr :=
   EAnd (EBetween false (ECol 1) (ELit (VInt 0)) (ELit (VInt 2)))
-       (EOr (ELike false (ECol 3) (ELit (VText [97; 37]))) (EIn false (ECol 2) [ELit (VInt 1); ELit (VFloat 4612811918334230528)])).
+       (EOr (ELike false (ECol 3) (ELit (VText [97; 95; 99]))) (EIn false (ECol 2) [ELit (VInt 1); ELit (VFloat 4612811918334230528)])).
 Lemma good_examples :
   cls_where 0 good1 T3 = 0 /\ defined_on good1 T3 = true /\ spec_rows good1 T3 = [1; 0; 1] /\
   cls_where 0 good2 T3 = 0 /\ defined_on good2 T3 = true /\ spec_rows good2 T3 = [1; 1; 0] /\
